@@ -254,3 +254,57 @@ func verifC05Structured() {
 	vAssume(exts[len(exts)-1].typ != 0xfd00 && exts[len(exts)-2].typ != 0xfd00)
 	vCheckPassthrough(h.record(), keys, true)
 }
+
+// verifC05Later: when an ECH extension was presented but not accepted (GREASE,
+// unknown id, no keys), every later record in either direction passes through
+// untouched and uninterpreted - including a HelloRetryRequest, a second
+// ClientHello, a TLS 1.2 ServerHello without extensions and opaque handshake
+// records.
+func verifC05Later() {
+	name := vBytes(2)
+	exts := []vExt{vSNI(name), vVersions(0x0304), vECHOuter(vUint16(), vUint16(), vByte(), vBytes(32), vBytes(3))}
+	h := vHello{version: 0x0303, random: vBytes(32), sid: vBytes(1), suites: []byte{0x13, 0x01}, comp: []byte{0}, exts: exts}
+	var opts []Option
+	if vBool() {
+		opts = append(opts, WithKeys(vC08Key()))
+	}
+	tr := newVTransport(h.record())
+	c, err := NewConn(context.Background(), tr, opts...)
+	vAssert(err == nil && !c.ECHAccepted(), "GREASE / unknown ECH passes through")
+	first, _ := vReadAll(c, 400, len(tr.in))
+	vAssert(vBytesEq(first, h.record()), "hello forwarded unchanged")
+	for i := 0; i < 3; i++ {
+		var rec []byte
+		toBackend := false
+		switch vInt(0, 4) {
+		case 0: // HelloRetryRequest from the backend
+			rec = vServerHello(vHRRRandom, h.sid)
+		case 1: // TLS 1.2 style ServerHello without an extension block
+			body := vCat([]byte{0x03, 0x03}, vBytes(32), []byte{0}, []byte{0x00, 0x2f, 0x00})
+			rec = vRecord(22, 0x0303, vCat([]byte{0x02}, vU24(len(body)), body))
+		case 2: // opaque (encrypted) handshake record whose first byte looks like ServerHello
+			rec = vRecord(22, 0x0303, vCat([]byte{0x02}, vBytes(2)))
+		case 3: // the client's second ClientHello (arbitrary contents)
+			toBackend = true
+			h2 := h
+			h2.random = vBytes(32)
+			h2.exts = []vExt{vSNI(name), vVersions(0x0304), {51, vBytes(2)}}
+			rec = h2.record()
+		case 4: // any other client record
+			toBackend = true
+			rec = vRecord(vByte(), 0x0303, vBytes(2))
+		}
+		if toBackend {
+			tr.in = append(tr.in, rec...)
+			got, rerr := vReadAll(c, 400, len(rec))
+			vAssert(rerr == nil && vBytesEq(got, rec), "later client record forwarded unchanged")
+		} else {
+			before := len(tr.out)
+			n, werr := c.Write(rec)
+			vAssert(werr == nil && n == len(rec), "later backend record accepted")
+			vAssert(vBytesEq(tr.out[before:], rec), "later backend record forwarded unchanged")
+		}
+	}
+	vAssert(!tr.closed && len(tr.out) >= 0, "connection left alone")
+	vReach("later")
+}
